@@ -316,13 +316,11 @@ mut("c13_copy_mutates_source", "C13", "engine.py", "        engine = copy.deepco
 mut("c02_batch_squeezes_to_scalar_list", "C02", "defuzzifier.py", "        z = ((x * y).sum(axis=1) / y.sum(axis=1)).squeeze()\n        return z  # type: ignore",
     "        z = ((x * y).sum(axis=1) / y.sum(axis=1)).squeeze()\n        return z[:-1] if z.ndim == 1 and z.size > 2 else z  # type: ignore",
     "Centroid drops the last row of batches of 3 or more")
-mut("c02_output_matrix_row_stack", "C02", "engine.py", '''        values = tuple(output_variable.value for output_variable in self.output_variables)
-        result = np.column_stack(values) if values else np.array(values)
+mut("c02_output_matrix_row_stack", "C02", "engine.py", '''        result = np.column_stack(np.broadcast_arrays(*values)) if values else np.array(values)
         return result
 
     @property
-    def values(self)''', '''        values = tuple(output_variable.value for output_variable in self.output_variables)
-        result = np.column_stack(values) if values else np.array(values)
+    def values(self)''', '''        result = np.column_stack(np.broadcast_arrays(*values)) if values else np.array(values)
         return result[::-1] if result.shape[0] > 2 else result
 
     @property
@@ -337,3 +335,5 @@ mut("d5_revert_resolution1", "C02", "defuzzifier.py", '''        x = np.atleast_
         z = ((x * y).sum(axis=1) / y.sum(axis=1)).squeeze()''', "defect D5 (Centroid only) as found at the pinned commit")
 mut("d6_revert_constant_dtype", "C02", "term.py", "        y = np.full_like(x, fill_value=self.value, dtype=settings.float_type)\n        return y",
     "        y = np.full_like(x, fill_value=self.value)\n        return y", "defect D6 as found at the pinned commit")
+mut("d4_revert_output_values", "C02", "engine.py", "        result = np.column_stack(np.broadcast_arrays(*values)) if values else np.array(values)\n        return result\n\n    @property\n    def values(self)",
+    "        result = np.column_stack(values) if values else np.array(values)\n        return result\n\n    @property\n    def values(self)", "defect D4 as found at the pinned commit")
